@@ -149,6 +149,9 @@ def component(r, profile):
 
 def match_part(r, profile="plain", max_components=5):
     comps = [component(r, profile) for _ in range(r.randint(1, max_components))]
+    if r.random() < 0.15:
+        # a variable filled from a cell (possibly empty, blank or the word None) and then used as an existence test
+        comps += [f"@e = {hdr(r)}", r.choice(["@e", "not(@e)", "@e -> push(\"es\", line_number())", "or(@e, no())"])]
     # a `last() ->` component, if any, comes last (quantifier of C01)
     comps.sort(key=lambda c: c.startswith("last() ->"))
     return r.choice([" ", "\n", "  "]).join(comps)
@@ -174,6 +177,6 @@ def gen_file(r, max_recs=9):
             elif j == 1:
                 row.append(str(r.randint(0, 4)) if r.random() < 0.6 else r.choice(WORDS))
             else:
-                row.append(r.choice(WORDS) if r.random() < 0.93 else r.choice(["", " pad ", "true", "None"]))
+                row.append(r.choice(WORDS) if r.random() < 0.88 else r.choice(["", "", " pad ", "true", "None", "  "]))
         recs.append(row)
     return recs
